@@ -110,9 +110,13 @@ fn coords(li: u64, seed: u64) -> [u64; 9] {
 }
 
 fn eval_event(spec: &EventSpec, ts: u32, h: u64, what: serde_json::Value, loc: &mut Local) -> Res {
+    eval_event_with(spec, ts, h, what, None, loc)
+}
+
+fn eval_event_with(spec: &EventSpec, ts: u32, h: u64, what: serde_json::Value, suppress: Option<i16>, loc: &mut Local) -> Res {
     let m = maps();
     let hits = ionisation(m, spec);
-    let banks = banks(m, &signals(m, spec.sigma_z, &hits), ts);
+    let banks = banks_with(m, &signals(m, spec.sigma_z, &hits), ts, suppress);
     match reconstruct(&banks) {
         Err(p) => {
             loc.note(h, hits.len() >= 13, "panic");
@@ -204,6 +208,25 @@ pub fn run(args: &Args) -> i32 {
             all_batches.push(whole);
             // (single-coordinate slices of this narrower population are not judged: on the pinned tree the 2-track slice has
             // a median signed dz of 2.8 mm, at the statement's limit)
+        }
+    }
+
+    // wire packets as sent with data suppression enabled: every wire cut 20 samples after its last sample over threshold
+    // (waveforms of different lengths within one block of wires), data-less packets for wires that never cross it
+    {
+        let widx: Vec<u64> = (0..total).filter(|i| i % 4 == ((args.seed + 1) % 4)).collect();
+        let results = Mutex::new(vec![Res::default(); widx.len()]);
+        rep.run("suppressed-wires", widx.len() as u64, 300, true, "every 4th lattice point with ADC data suppression enabled on the wires (threshold 8 counts, keep_bit set, keep_last 34): ragged waveform lengths, data-less packets for quiet wires", |k, loc| {
+            let li = widx[k as usize];
+            let spec = lattice_event(li, args.seed);
+            let r = eval_event_with(&spec, 15000 + li as u32, hash64(&(li, "suppressed")), json!({"lattice_index": li, "suppression": true}), Some(8), loc);
+            results.lock().unwrap()[k as usize] = r;
+        });
+        if rep.one.is_none() {
+            let rs: Vec<Res> = results.lock().unwrap().iter().copied().filter(|r| r.done).collect();
+            let whole = judge(&rep, "suppressed wires, whole sub-lattice", &rs);
+            eprintln!("  [C12] {whole}");
+            all_batches.push(whole);
         }
     }
 
